@@ -2251,38 +2251,66 @@ impl<'a> SeqRun<'a> {
         let plain_cfg = PtCfg { seal_size: false, ..cfg.clone() };
         let mut plain = SealWorld::new(&plain_cfg, &mut self.cl);
         let n0 = self.cl.nreq;
+        // The differential clause compares the sealed export with an unsealed twin that has seen the same history.
+        // A request the sealed export refuses because it could change a size is therefore NOT executed on the twin
+        // (it would legitimately change the twin and every later comparison would be noise: this was a false alarm
+        // of the depth-3 tier, see DESIGN.md 8.2); such a refused request must have left the sealed files as they were.
+        // If the two exports ever come apart in another way that is not itself a violation, the differential
+        // comparison stops for the rest of the sequence (the size invariant is still checked after every request).
+        let mut diverged = false;
         for op in seq {
+            let zo_open = sealed.w.zero_message_open() && matches!(op, SOp::Open(..));
+            let lastfile = sealed.handles.last().map(|h| h.file).unwrap_or(0);
+            let last_append = sealed.handles.last().map(|h| h.flags & libc::O_APPEND != 0).unwrap_or(false);
+            // requests that cannot change a size whatever the file's state: writes fully inside on a handle not in
+            // append mode, non-size setattr, open without O_TRUNC, release, create without O_TRUNC/O_EXCL,
+            // allocate / punch / zero ranges inside the file
+            let harmless = match op {
+                SOp::Write(offk, len, rf, _) => *rf == 0 && ((*len == 0 && *offk <= 2) || (*len > 0 && *offk == 0 && (*len as u64) <= SEAL_FILES[lastfile].1) || (*offk == 1 && *len == 1 && SEAL_FILES[lastfile].1 >= 1)) && !last_append,
+                SOp::Setattr(_, kd, _) => *kd >= 3,
+                SOp::Open(_, _, extra) => *extra == 0,
+                SOp::Release => true,
+                SOp::Create(_, c) => *c == 0,
+                SOp::Fallocate(mm, r) => *r == 0 && [0usize, 1, 2, 3, 4].contains(&(*mm as usize)) && SEAL_FILES[lastfile].1 >= 4,
+            };
             let Some(e1) = sealed.step(&mut self.cl, *op) else { return true };
-            let e2 = plain.step(&mut self.cl, *op).unwrap_or(-1);
             sealed.check_sizes(op, e1);
-            // differential clause: if the same request leaves every size unchanged on an unsealed export,
-            // the sealed export must answer it the same way with the same effect
-            let plain_sizes_same = SEAL_FILES.iter().all(|(n, sz)| std::fs::symlink_metadata(plain.w.exp.join(n)).map(|m| m.size() == *sz).unwrap_or(false));
-            if sealed.problems.is_empty() && plain_sizes_same && e2 == 0 {
-                let k = format!("{:?}", op);
-                let kind = k.split('(').next().unwrap_or("").to_string();
-                if e1 != e2 {
-                    // refusing a request that could have changed the size is the point of sealing: only requests
-                    // that cannot change it are compared (writes fully inside, non-size setattr, open without O_TRUNC)
-                    let harmless = match op {
-                        SOp::Write(offk, len, rf, _) => *rf == 0 && ((*len == 0 && *offk <= 2) || (*len > 0 && *offk == 0 && (*len as u64) <= SEAL_FILES[sealed.handles.last().map(|h| h.file).unwrap_or(0)].1) || (*offk == 1 && *len == 1 && SEAL_FILES[sealed.handles.last().map(|h| h.file).unwrap_or(0)].1 >= 1)) && sealed.handles.last().map(|h| h.flags & libc::O_APPEND == 0).unwrap_or(true),
-                        SOp::Setattr(_, kd, _) => *kd >= 3,
-                        SOp::Open(_, _, extra) => *extra == 0,
-                        SOp::Release => true,
-                        SOp::Create(_, c) => *c == 0,
-                        SOp::Fallocate(mm, r) => *r == 0 && [0usize, 1, 2, 3, 4].contains(&(*mm as usize)) && SEAL_FILES[sealed.handles.last().map(|h| h.file).unwrap_or(0)].1 >= 4,
-                    };
-                    if harmless {
-                        sealed.problems.push((format!("within-size-request-treated-differently/{}", kind), format!("{:?}: sealed export answers errno {}, unsealed export answers {} and no size changes", op, e1, e2)));
-                    }
-                } else {
+            let k = format!("{:?}", op);
+            let kind = k.split('(').next().unwrap_or("").to_string();
+            if sealed.problems.is_empty() && !diverged {
+                if e1 != 0 && !harmless && !zo_open {
+                    // refused: the twin does not see it; the sealed files must be byte for byte what they were
                     for (n, _) in SEAL_FILES {
                         if std::fs::read(sealed.w.exp.join(n)).ok() != std::fs::read(plain.w.exp.join(n)).ok() {
-                            sealed.problems.push((format!("within-size-request-different-effect/{}", kind), format!("{:?}: content of {} differs between the sealed and the unsealed export", op, n)));
+                            sealed.problems.push((format!("refused-request-had-effect/{}", kind), format!("{:?}: answered errno {} but the content of {} changed", op, e1, n)));
                             break;
                         }
                     }
+                } else {
+                    let e2 = plain.step(&mut self.cl, *op).unwrap_or(-1);
+                    // differential clause: if the same request leaves every size unchanged on an unsealed export,
+                    // the sealed export must answer it the same way with the same effect
+                    let plain_sizes_same = SEAL_FILES.iter().all(|(n, sz)| std::fs::symlink_metadata(plain.w.exp.join(n)).map(|m| m.size() == *sz).unwrap_or(false));
+                    if !plain_sizes_same {
+                        diverged = true;
+                    } else if e1 != e2 {
+                        if harmless && e2 == 0 {
+                            sealed.problems.push((format!("within-size-request-treated-differently/{}", kind), format!("{:?}: sealed export answers errno {}, unsealed export answers {} and no size changes", op, e1, e2)));
+                        } else {
+                            diverged = true;
+                        }
+                    } else {
+                        for (n, _) in SEAL_FILES {
+                            if std::fs::read(sealed.w.exp.join(n)).ok() != std::fs::read(plain.w.exp.join(n)).ok() {
+                                sealed.problems.push((format!("within-size-request-different-effect/{}", kind), format!("{:?}: content of {} differs between the sealed and the unsealed export", op, n)));
+                                break;
+                            }
+                        }
+                    }
                 }
+            }
+            if diverged {
+                self.rep.add("differential_stopped_after_divergence", 1);
             }
             if !sealed.problems.is_empty() {
                 break;
